@@ -190,7 +190,7 @@ class Gen:
             return 16
         return 17
 
-    def emit_expr(self, e, tk, minlevel=1, paren_mode="min"):
+    def emit_expr(self, e, tk, minlevel=1, paren_mode="min", _wrapped=False):
         """Render e so that it is at least at grammar level minlevel; returns the expected AST."""
         r = self.rng
         need = self.level(e) < minlevel
@@ -198,13 +198,13 @@ class Gen:
         # (known finding C01); with avoid_known the literal is parenthesised, which is equally valid C
         if self.avoid_known and e[0] == "complit" and minlevel >= 15:
             need = True
-        extra = (paren_mode == "full" and e[0] not in ("id", "const")) or (paren_mode == "rand" and r.random() < 0.3)
+        extra = not _wrapped and ((paren_mode == "full" and e[0] not in ("id", "const")) or (paren_mode == "rand" and r.random() < 0.3))
         # a comma expression wrapped in redundant parentheses as operand of a comma stays nested: never add those
         if extra and e[0] == "comma" and not need:
             extra = False
         if need or extra:
             tk.add("(")
-            n = self.emit_expr(e, tk, 1, paren_mode)
+            n = self.emit_expr(e, tk, 1, paren_mode, _wrapped=(paren_mode == "full"))
             tk.add(")")
             return n
         t = e[0]
